@@ -55,7 +55,7 @@ var conf = map[string]pkgConf{
 	"token":       {imports: shimAll, monitors: []string{"tokens", "fileSize", "modTime"}, sortedMaps: []string{"tokens"}},
 	"packetcache": {imports: shimAll, monitors: []string{"entries", "tail", "last", "lastValid", "cycle", "expected", "received", "totalExpected", "totalReceived", "keyframe", "keyframeValid", "seqno", "lengthAndMarker", "timestamp", "buf", "bitmap", "first", "valid"}},
 	"packetmap":   {imports: shimAll},
-	"rtpconn":     {imports: shimAll, goStmts: true, sortedMaps: []string{"up", "down"}},
+	"rtpconn":     {imports: shimAll, goStmts: true, chanPts: true, sortedMaps: []string{"up", "down"}},
 	"diskwriter":  {imports: shimAll},
 	"webserver":   {imports: shimAll, goStmts: true},
 	"estimator":   {imports: shimAll},
